@@ -5,7 +5,8 @@
 //!
 //! One case per line, records separated by `;`:
 //!   C <scid> <a> <b> <cap_sats|-1> <en hmin hmax base prop cltv | -> <same for b->a | ->
-//!   F <scid> <peer> <outbound_capacity_msat> <next_outbound_htlc_limit_msat> <next_outbound_htlc_minimum_msat> <announced>
+//!   F <scid> <peer> <outbound_capacity_msat> <next_outbound_htlc_limit_msat> <next_outbound_htlc_minimum_msat> <announced> [<outbound_scid_alias|-1> [<has short_channel_id: 1|0>]]
+//!   CF <scid> <bit>    feature bit set in the channel's announcement      NF <node> <bit>   feature bit in the node's announcement
 //!   H <route> <src> <scid> <base> <prop> <cltv> <hmin|-1> <hmax|-1>     hint hops, in route order
 //!   B <intro> <base> <prop> <cltv> <hmin> <hmax> <nhops>                 blinded payment path
 //!   P <payer> <payee|-1> <value> <max_paths> <max_fee|-1> <max_cltv> <max_len> <saturation_pow> <final_cltv> <mpp> <use_first_hops>
@@ -23,9 +24,9 @@ use bitcoin::secp256k1::{PublicKey, Secp256k1, SecretKey};
 use lightning::blinded_path::payment::{BlindedPayInfo, BlindedPaymentPath};
 use lightning::blinded_path::BlindedHop;
 use lightning::ln::channel_state::{ChannelCounterparty, ChannelDetails, ChannelShutdownState};
-use lightning::ln::msgs::UnsignedChannelUpdate;
+use lightning::ln::msgs::{UnsignedChannelUpdate, UnsignedNodeAnnouncement};
 use lightning::ln::types::ChannelId;
-use lightning::routing::gossip::{NetworkGraph, NodeId};
+use lightning::routing::gossip::{NetworkGraph, NodeAlias, NodeId};
 use lightning::routing::router::verif_hooks_router as vh;
 use lightning::routing::router::{
 	find_route, InFlightHtlcs, Path, PaymentParameters, RouteHint, RouteHintHop, RouteHop,
@@ -82,7 +83,7 @@ impl Keys {
 	}
 }
 
-fn details(scid: u64, peer: PublicKey, cap: u64, limit: u64, min: u64, announced: bool) -> ChannelDetails {
+fn details(scid: u64, peer: PublicKey, cap: u64, limit: u64, min: u64, announced: bool, alias: Option<u64>, real: bool) -> ChannelDetails {
 	ChannelDetails {
 		channel_id: ChannelId::new_zero(),
 		counterparty: ChannelCounterparty {
@@ -96,8 +97,8 @@ fn details(scid: u64, peer: PublicKey, cap: u64, limit: u64, min: u64, announced
 		funding_txo: None,
 		funding_redeem_script: None,
 		channel_type: None,
-		short_channel_id: Some(scid),
-		outbound_scid_alias: None,
+		short_channel_id: if real { Some(scid) } else { None },
+		outbound_scid_alias: alias,
 		inbound_scid_alias: None,
 		channel_value_satoshis: cap / 1000 + 1,
 		user_channel_id: 0,
@@ -126,6 +127,30 @@ fn details(scid: u64, peer: PublicKey, cap: u64, limit: u64, min: u64, announced
 	}
 }
 
+fn feature_bytes(bits: Option<&Vec<usize>>) -> Vec<u8> {
+	let mut v = Vec::new();
+	for b in bits.map(|b| b.as_slice()).unwrap_or(&[]) {
+		while v.len() <= b / 8 {
+			v.push(0u8);
+		}
+		v[b / 8] |= 1 << (b % 8);
+	}
+	v
+}
+
+/// the highest even ("required") bit set in a little-endian feature vector, -1 if none
+fn top_required_bit(flags: &[u8]) -> i64 {
+	let mut top = -1i64;
+	for (i, byte) in flags.iter().enumerate() {
+		for j in (0..8).step_by(2) {
+			if byte & (1 << j) != 0 {
+				top = (i * 8 + j) as i64;
+			}
+		}
+	}
+	top
+}
+
 fn opt(v: i128) -> Option<u64> {
 	if v < 0 {
 		None
@@ -144,6 +169,15 @@ fn run_case(keys: &Keys, line: &str) -> String {
 	let mut excluded_b: Vec<u64> = Vec::new();
 	let mut p: Vec<i128> = Vec::new();
 	let mut s: Vec<i128> = vec![0, 0, 0];
+	let mut node_feats: Vec<(usize, usize)> = Vec::new();
+	// channel feature bits are needed when the channel is created: collect them first
+	let mut chan_feats: HashMap<u64, Vec<usize>> = HashMap::new();
+	for rec in line.split(';') {
+		let t: Vec<&str> = rec.split_whitespace().collect();
+		if t.len() == 3 && t[0] == "CF" {
+			chan_feats.entry(t[1].parse().unwrap()).or_default().push(t[2].parse().unwrap());
+		}
+	}
 	for rec in line.split(';') {
 		let t: Vec<&str> = rec.split_whitespace().collect();
 		if t.is_empty() {
@@ -157,7 +191,14 @@ fn run_case(keys: &Keys, line: &str) -> String {
 				let a_is_one = ia < ib;
 				let (one, two) = if a_is_one { (ia, ib) } else { (ib, ia) };
 				graph
-					.add_channel_from_partial_announcement(scid, opt(n(4)), 1, ChannelFeatures::empty(), one, two)
+					.add_channel_from_partial_announcement(
+						scid,
+						opt(n(4)),
+						1,
+						ChannelFeatures::from_le_bytes(feature_bytes(chan_feats.get(&scid))),
+						one,
+						two,
+					)
 					.unwrap();
 				let mut i = 5;
 				for dir_ab in [true, false] {
@@ -185,7 +226,18 @@ fn run_case(keys: &Keys, line: &str) -> String {
 					i += 6;
 				}
 			},
-			"F" => first.push(details(n(1) as u64, keys.pks[n(2) as usize], n(3) as u64, n(4) as u64, n(5) as u64, n(6) != 0)),
+			"F" => first.push(details(
+				n(1) as u64,
+				keys.pks[n(2) as usize],
+				n(3) as u64,
+				n(4) as u64,
+				n(5) as u64,
+				n(6) != 0,
+				if t.len() > 7 { opt(n(7)) } else { None },
+				if t.len() > 8 { n(8) != 0 } else { true },
+			)),
+			"CF" => {},
+			"NF" => node_feats.push((n(1) as usize, n(2) as usize)),
 			"H" => {
 				let r = n(1) as usize;
 				while hints.len() <= r {
@@ -224,6 +276,25 @@ fn run_case(keys: &Keys, line: &str) -> String {
 			"XB" => excluded_b = (1..t.len()).map(|i| n(i) as u64).collect(),
 			"S" => s = (1..t.len()).map(|i| n(i)).collect(),
 			_ => return format!("BADREC {}", t[0]),
+		}
+	}
+	// node announcements carrying the requested feature bits (a node unknown to the graph is skipped)
+	{
+		let mut by_node: HashMap<usize, Vec<usize>> = HashMap::new();
+		for (node, bit) in node_feats.iter() {
+			by_node.entry(*node).or_default().push(*bit);
+		}
+		for (node, bits) in by_node.iter() {
+			let _ = graph.update_node_from_unsigned_announcement(&UnsignedNodeAnnouncement {
+				features: NodeFeatures::from_le_bytes(feature_bytes(Some(bits))),
+				timestamp: 100,
+				node_id: NodeId::from_pubkey(&keys.pks[*node]),
+				rgb: [0; 3],
+				alias: NodeAlias([0; 32]),
+				addresses: Vec::new(),
+				excess_address_data: Vec::new(),
+				excess_data: Vec::new(),
+			});
 		}
 	}
 	let payer = keys.pks[p[0] as usize];
@@ -271,10 +342,29 @@ fn run_case(keys: &Keys, line: &str) -> String {
 					let dst_id = NodeId::from_pubkey(&dst);
 					let public = ro.channel(hop.short_channel_id).and_then(|c| c.as_directed_to(&dst_id)).is_some();
 					if public {
+						// not an edge of its own: the announced channel is in the view; recorded so that the check can
+						// tell when a route reached an announced channel through a hint
+						view.push(format!(
+							"Q,{},{},{},0,0,0,-1,0,0,0,-1,-1,-1",
+							hop.short_channel_id,
+							keys.name_pk(&hop.src_node_id),
+							keys.name_pk(&dst)
+						));
+						continue;
+					}
+					// a hint naming one of the payer's own supplied channels (by either identifier) is that
+					// channel: it is in the view as a first hop carrying both identifiers
+					let own = use_first
+						&& hop.src_node_id == payer
+						&& first.iter().any(|d| {
+							d.counterparty.node_id == dst
+								&& (d.short_channel_id == Some(hop.short_channel_id) || d.outbound_scid_alias == Some(hop.short_channel_id))
+						});
+					if own {
 						continue;
 					}
 					view.push(format!(
-						"H,{},{},{},1,{},{},-1,{},{},{}",
+						"H,{},{},{},1,{},{},-1,{},{},{},-1,-1,-1",
 						hop.short_channel_id,
 						keys.name_pk(&hop.src_node_id),
 						keys.name_pk(&dst),
@@ -297,8 +387,12 @@ fn run_case(keys: &Keys, line: &str) -> String {
 					if use_first && *src == payer_id {
 						continue;
 					}
+					let node_req = ro
+						.node(dst)
+						.and_then(|n| n.announcement_info.as_ref().map(|a| top_required_bit(a.features().le_flags())))
+						.unwrap_or(-1);
 					view.push(format!(
-						"P,{},{},{},{},{},{},{},{},{},{}",
+						"P,{},{},{},{},{},{},{},{},{},{},-1,{},{}",
 						scid,
 						keys.name_id(src),
 						keys.name_id(dst),
@@ -308,7 +402,9 @@ fn run_case(keys: &Keys, line: &str) -> String {
 						c.capacity_sats.map(|v| (v as i128) * 1000).unwrap_or(-1),
 						u.fees.base_msat,
 						u.fees.proportional_millionths,
-						u.cltv_expiry_delta
+						u.cltv_expiry_delta,
+						top_required_bit(c.features.le_flags()),
+						node_req
 					));
 				}
 			}
@@ -316,15 +412,21 @@ fn run_case(keys: &Keys, line: &str) -> String {
 	}
 	if use_first {
 		for d in first.iter() {
+			let id = d.get_outbound_payment_scid().unwrap();
+			let other = match (d.short_channel_id, d.outbound_scid_alias) {
+				(Some(a), Some(b)) if a != b => (if a == id { b } else { a }) as i128,
+				_ => -1,
+			};
 			view.push(format!(
-				"F,{},{},{},{},{},{},{},0,0,0",
-				d.get_outbound_payment_scid().unwrap(),
+				"F,{},{},{},{},{},{},{},0,0,0,{},-1,-1",
+				id,
 				keys.name_pk(&payer),
 				keys.name_pk(&d.counterparty.node_id),
 				d.is_usable as u8,
 				d.next_outbound_htlc_minimum_msat,
 				d.next_outbound_htlc_limit_msat,
-				d.outbound_capacity_msat
+				d.outbound_capacity_msat,
+				other
 			));
 		}
 	}
@@ -335,10 +437,10 @@ fn run_case(keys: &Keys, line: &str) -> String {
 				_ => "?".to_string(),
 			};
 			if b.blinded_hops().len() == 1 {
-				view.push(format!("B,{},{},-1,1,0,{},-1,0,0,0", idx, intro, u64::MAX));
+				view.push(format!("B,{},{},-1,1,0,{},-1,0,0,0,-1,-1,-1", idx, intro, u64::MAX));
 			} else {
 				view.push(format!(
-					"B,{},{},-1,1,{},{},-1,{},{},{}",
+					"B,{},{},-1,1,{},{},-1,{},{},{},-1,-1,-1",
 					idx,
 					intro,
 					b.payinfo.htlc_minimum_msat,
